@@ -140,7 +140,11 @@ Record ccase := mkcc {
         (level, interned text, interned words) *)
   c_req_s : option (list Z); c_known_s : list Z; c_out_s : option (list Z);   (* samples: requested, in the data, in the output *)
   c_sel_i : option (list Z);         (* ids as listed by the user *)
-  c_req_i : option (list Z); c_known_i : list Z; c_out_i : option (list Z)    (* ids: requested (+ target), in the data, in the output *)
+  c_req_i : option (list Z); c_known_i : list Z; c_out_i : option (list Z);   (* ids: requested (+ target), in the data, in the output *)
+  c_missing : list Z;                (* output files the subcommand documents that do not exist after the CLI run *)
+  c_py_missing : list Z;             (* ... after the call of the Python entry point *)
+  c_index : option (list tline)
+     (* index --no-sort writing into an existing directory: what tabix sees of the data lines of the input *)
 }.
 
 (* the entries of the output were asked for and exist; nothing else appears *)
@@ -171,21 +175,24 @@ Definition new_message (logs : list (Z * Z * list Z)) (ref_msgs : list Z) : bool
 Definition named (logs : list (Z * Z * list Z)) (x : Z) : bool :=
   existsb (fun r => (30 <=? log_level r) && memz x (log_words r)) logs.
 
-(* how an unknown entry is reported: 1 = a message that is absent without it (what the property says),
-   2 = moreover a warning names it (where the commands do so: the IDs of transform and simphenotype and the
-   haplotype IDs of ld; at most five entries are listed by those messages), 0 = not judged *)
+(* how unknown entries are reported: 1 = a message that is absent without them, 2 = moreover a warning
+   names one of them (samples of transform / simphenotype / ld and the variant IDs of ld --from-gts: the
+   commands list "the first few" of the sorted difference), 3 = moreover every one of them (when there are
+   at most five: the messages list five) is named by a warning (the IDs of transform and simphenotype and
+   the haplotype IDs of ld), 0 = not judged *)
 Definition demand_samples (k : ccase) : Z :=
-  if (0 <=? c_cmd k) && (c_cmd k <=? 2) then 1 else 0.
+  if (0 <=? c_cmd k) && (c_cmd k <=? 2) then 2 else 0.
 Definition demand_ids (k : ccase) : Z :=
-  if (c_cmd k =? 0) || (c_cmd k =? 1) then 2
-  else if c_cmd k =? 2 then (if c_from_gts k then 1 else 2)
+  if (c_cmd k =? 0) || (c_cmd k =? 1) then 3
+  else if c_cmd k =? 2 then (if c_from_gts k then 2 else 3)
   else 0.
 
 Definition reported (demand : Z) (unk : list Z) (logs : list (Z * Z * list Z)) (ref_msgs : list Z) : bool :=
   match unk with
   | [] => true
   | _ => ((demand <? 1) || new_message logs ref_msgs)
-         && ((demand <? 2) || (5 <? lenZ unk) || forallb (named logs) unk)
+         && ((demand <? 2) || existsb (named logs) unk)
+         && ((demand <? 3) || (5 <? lenZ unk) || forallb (named logs) unk)
   end.
 
 (* against the run without the unknown entries: same exit status, same output; and if it completes and
@@ -200,7 +207,25 @@ Definition holds_unknown (k : ccase) : bool :=
             && reported (demand_ids k) (unknown_of (c_sel_i k) (c_known_i k)) (c_logs k) msgs))
   end.
 
+(* ---- "a failing run exits non-zero" -------------------------------------- *)
+
+Definition is_nil {A} (l : list A) : bool := match l with [] => true | _ => false end.
+Definition is_err {A} (r : res A) : bool := match r with Ok _ => false | Err _ => true end.
+
+(* the Python entry point is comparable with the command line (one form of sample selection, --id not
+   next to --ids-file: the property does not say which of the two wins) *)
+Definition py_judged (k : ccase) : bool := negb (c_both k) && negb (c_ids_both k).
+
+(* a run is failing when an output file the subcommand documents is absent afterwards, or the
+   documented Python entry point, given the same parameters, raises or leaves a documented output out *)
+Definition failing (k : ccase) : bool :=
+  negb (is_nil (c_missing k))
+  || (py_judged k && (is_err (c_py k) || negb (is_nil (c_py_missing k)))).
+
+Definition holds_exit (k : ccase) : bool := negb (failing k) || negb (c_exit k =? 0).
+
 Definition holds_cli (k : ccase) : bool :=
+  holds_exit k &&
   (if c_both k then (c_exit k =? 2)
    else if c_ids_both k then true
    else match c_py k with
@@ -222,7 +247,23 @@ Definition model_cli (k : ccase) : Z * option (list Z) :=
   let r := if c_both k then Err E_Usage else c_py k in
   (exit_code r, match r with Ok o => Some o | Err _ => None end).
 
+(* printed in replay files: the above and, for index --no-sort, what the model of index_haps' tail predicts *)
+Definition model_cli_shown (k : ccase) : Z * option (list Z) * option (res files) :=
+  (model_cli k, option_map (index_nosort false) (c_index k)).
+
+(* index --no-sort: the model of index_haps' tail decides, from the order of the data lines alone, whether
+   the run completes (both documented files written) or fails (exit status 1, the .tbi is absent) *)
+Definition agree_index (k : ccase) : bool :=
+  match c_index k with
+  | None => true
+  | Some ls =>
+    match index_nosort false ls with
+    | Ok f => (c_exit k =? 0) && is_nil (missing_of f) && is_nil (c_missing k)
+    | Err e => (c_exit k =? exit_code (@Err unit e)) && negb (is_nil (c_missing k))
+    end
+  end.
+
 Definition check_cli (k : ccase) : bool * bool :=
   (let '(e, o) := model_cli k in
-   (e =? c_exit k) && match o with Some o => zl_eqb o (c_out k) | None => true end,
+   (e =? c_exit k) && match o with Some o => zl_eqb o (c_out k) | None => true end && agree_index k,
    holds_cli k).
